@@ -942,9 +942,13 @@ def EDFA(input: optical_signal, G: float, NF: float, BW: float=None):
         raise TypeError("`input` must be of type (optical_signal).")
 
     output = optical_signal(signal=input.signal, noise=input.noise, n_pol=2) * np.sqrt( idb(G) )
+    if output.noise is not None:
+        output.noise = output.noise * np.sqrt( idb(G) )  # `*` scales only the signal; the input noise is amplified too
     
     if input.n_pol == 1:
         output.signal[1] = np.zeros_like(output.signal[0])  # y-polarization of signal is set to zeros.
+        if output.noise is not None:
+            output.noise[1] = np.zeros_like(output.noise[0])  # and so is the y-polarization of the input noise
 
     # generate ASE noise (2-polarizations with real and imaginary parts)
     # gv.fs is taken as initial bandwidth of noise 
